@@ -257,3 +257,9 @@ pub fn hm_new<K, V>() -> HashMap<K, V, RandomState> {
 pub fn hs_new<T>() -> HashSet<T, RandomState> {
     unsafe { zeroed_with_id::<HashSet<T, RandomState>, RandomState>(|s| s.hasher()) }
 }
+
+/// Stub for `alloc::sync::Arc::drop_slow` (the cold path taken when the last strong reference
+/// goes away): the shared value is leaked instead of destroyed.  Reference counts still drop to
+/// zero, so `Weak::upgrade` keeps failing exactly when it should; what is lost are the side
+/// effects of the shared value's destructor.  Only for harnesses that do not depend on those.
+pub fn arc_drop_slow_leak<T: ?Sized, A: Allocator>(_this: &mut std::sync::Arc<T, A>) {}
